@@ -1,4 +1,5 @@
 import XzVerif.Proofs.XzSound
+import XzVerif.Proofs.XzRoundTrip
 /-
   C12 — Concatenated xz streams decode to the concatenation; SingleStream takes just one.
 
@@ -8,11 +9,14 @@ import XzVerif.Proofs.XzSound
   4-byte zero groups — in particular padding whose length is not a multiple of four and trailing
   non-zero bytes — cannot be silently ignored: `C12_clean_end_consumes_all`, which also covers
   SingleStream: with it a clean end means the first stream ends exactly at the end of the input),
-  and the input is never modified while streams are read.  The concatenation law itself
-  (decode (A ++ pad ++ B) = decode A ++ decode B) needs the extension-stability of the
-  single-stream parser, which is not proved yet; it is tied by the correspondence check on
-  generated chains (library-, liblzma- and spec-encoder-written streams, paddings 0…16,
-  SingleStream on/off).  Hence `_partial`.
+  and the input is never modified while streams are read.  `C12_concatenation`: any non-empty
+  list of well-formed streams, each followed by zero padding of a multiple of four bytes, decodes
+  to the concatenation of their contents with a clean end (the reader parsers are
+  extension-stable: proved with explicit `pre ++ bytes ++ post` decompositions).
+  `C12_single_stream`: with SingleStream the first stream's content is delivered and the end is
+  clean iff not a single byte follows.  `_partial` only in that "well-formed stream" is the
+  model emitter's layout (tied to real streams — library-, liblzma- and spec-encoder-written — by
+  the correspondence check on generated chains with paddings 0…16 and SingleStream on/off).
 -/
 namespace Props.C12
 open Xz Lzma
@@ -30,6 +34,21 @@ theorem C12_clean_end_consumes_all (strict : Bool) (cap : Nat) (single : Bool) (
     (h : (read strict cap single inp).status = .eof) :
     (read strict cap single inp).pos ≥ inp.size ∧ (read strict cap single inp).streams.size ≥ 1 :=
   ⟨read_clean_consumes_all strict cap single inp h, clean_needs_stream strict cap single inp h⟩
+
+/-- concatenated streams (with 4-byte-multiple zero padding after each) decode to the
+    concatenation of the contents -/
+theorem C12_concatenation (strict : Bool) (cfgCap : Nat) (ss : List Stream) (hne : ss ≠ [])
+    (hok : ∀ s ∈ ss, StreamOk strict s ∧ CapOk strict cfgCap s) :
+    (read strict cfgCap false (emit ss.toArray)).status = .eof ∧
+    (read strict cfgCap false (emit ss.toArray)).out = (ss.map content).foldl (· ++ ·) .empty :=
+  read_emit strict cfgCap ss hne hok
+
+/-- SingleStream: exactly the first stream's content; clean end iff nothing follows -/
+theorem C12_single_stream (strict : Bool) (cfgCap : Nat) (s : Stream) (hok : StreamOk strict s)
+    (hcap : CapOk strict cfgCap s) (hpad : s.padAfter = 0) (t : ByteArray) :
+    ((read strict cfgCap true (emitStream s ++ t)).status = .eof ↔ t = ByteArray.empty) ∧
+    (read strict cfgCap true (emitStream s ++ t)).out = content s :=
+  read_single strict cfgCap s hok hcap hpad t
 
 /-- the loop that walks over streams and padding never changes the input it reads from -/
 theorem C12_input_preserved (strict : Bool) (cap : Nat) (single : Bool) (fuel : Nat) (first : Bool) (r : RdState) :
